@@ -1,18 +1,393 @@
-//! C03 — not built yet (stub).
+//! C03 — the reader agrees with an independent decoder on valid xlsx files.
+//! (generated) every file of the grammar-enumerating generator pyref/xlsx_gen.py: three-way oracle
+//!   generator intent == Python decoder (else machinery error) == library dump after read_reader;
+//! (corpus) every corpus file: Python decoder == library dump.
+use crate::c02::{compare_model_p, corpus_files};
 use crate::common::*;
+use crate::dump::*;
+use crate::e1::*;
 use crate::pool::*;
-use serde_json::Value;
+use crate::pyref::with_py;
+use base64::Engine;
+use serde_json::{json, Value};
+use umya_spreadsheet::*;
 
 pub fn entry() -> crate::Entry {
     crate::Entry { id: "C03", run, space, replay }
 }
-pub fn space(_tier: Tier, _id: &str) -> Option<Box<dyn Space>> {
+
+fn gen_count() -> (u64, Value) {
+    let r = with_py(|py| py.call(json!({"op": "gen", "what": "count"}), &[]));
+    (r["count"].as_u64().unwrap_or(0), r["families"].clone())
+}
+
+fn strip_ws(s: &str) -> String {
+    s.chars().filter(|c| !c.is_whitespace()).collect()
+}
+
+/// Library dump of a loaded book in the shape compare_model_p expects (annotations on, styles off).
+fn lib_dump(b: &Spreadsheet) -> Value {
+    book_p(b, Opts { styles: false, annotations: true, dims: true })
+}
+
+fn push(sink: &mut Sink, clause: &str, sym: &str, tags: &[String], case: &Value, detail: String) {
+    let tg: Vec<&str> = tags.iter().map(|s| s.as_str()).collect();
+    sink.violations.push(Violation::new(clause, sym, &tg, case.clone(), detail));
+}
+
+/// Compare the library's reading with a reference decoding (`refd` has the shape of xlsx_ref.decode()).
+fn compare_reader(b: &Spreadsheet, refd: &Value, tags: &[String], case: &Value, sink: &mut Sink) {
+    let model = lib_dump(b);
+    let mut tags_v: Vec<String> = tags.to_vec();
+    if model.to_string().contains("\\r") {
+        tags_v.push("text-has-cr".into());
+    }
+    if refd["defined_names"].as_array().map(|a| a.iter().any(|d| d["text"].as_str().unwrap_or("").starts_with('"'))).unwrap_or(false) {
+        tags_v.push("defined-name-is-string-literal".into());
+    }
+    let tags: &[String] = &tags_v;
+    let mut seen = std::collections::BTreeSet::new();
+    for d in compare_model_p(&model, refd) {
+        // re-label for C03: the file is the authority, the library model is what is judged
+        let clause = match d.clause {
+            "decoder-cells" => "reader-cells",
+            "decoder-formulas" => "reader-formulas",
+            "decoder-hyperlinks" => "reader-hyperlinks",
+            "decoder-merges" => "reader-merges",
+            "decoder-defined-names" => "reader-defined-names",
+            "decoder-sheet-list" => "reader-sheet-list",
+            x => x,
+        };
+        let mut sym = d.symptom.clone();
+        if clause == "reader-formulas" {
+            // formula text: blanks are not significant for this comparison unless they separate operands
+            // (none of the generated templates contains an intersection operator)
+            let parts: Vec<&str> = d.detail.split("model formula ").collect();
+            let _ = parts;
+        }
+        if sym.starts_with("kind:") || sym.starts_with("formula-cached-kind:") {
+            // model->file direction in c02; here say file->model
+            let body = sym.splitn(2, ':').nth(1).unwrap_or("").to_string();
+            let mut it = body.split("->");
+            let (m, f) = (it.next().unwrap_or(""), it.next().unwrap_or(""));
+            sym = format!("{}file:{}->model:{}", if sym.starts_with("formula") { "formula-cached-kind:" } else { "kind:" }, f, m);
+        }
+        if seen.insert((clause, sym.clone())) {
+            push(sink, clause, &sym, tags, case, d.detail);
+        }
+    }
+    // rich runs (text per run) for cells the reference marks as rich
+    if let (Some(ms), Some(ps)) = (model["sheets"].as_array(), refd["sheets"].as_array()) {
+        for (m, q) in ms.iter().zip(ps.iter()) {
+            if let Some(pc) = q["cells"].as_object() {
+                for (k, d) in pc {
+                    if let Some(runs) = d["runs"].as_array() {
+                        let want: Vec<String> = runs.iter().map(|r| r["text"].as_str().unwrap_or("").to_string()).collect();
+                        let got: Vec<String> = m["cells"][k]["runs"].as_array().map(|a| a.iter().map(|r| r["text"].as_str().unwrap_or("").to_string()).collect()).unwrap_or_default();
+                        if !got.is_empty() && got != want && seen.insert(("reader-cells", "rich-run-texts".to_string())) {
+                            push(sink, "reader-cells", "rich-run-texts", tags, case, format!("{}: file runs {:?}, model runs {:?}", k, want, got));
+                        }
+                    }
+                }
+            }
+        }
+    }
+}
+
+fn approx_eq(a: f64, b: f64) -> bool {
+    (a - b).abs() < 1e-9
+}
+
+/// Generator-only expectations (style resolution, dimensions, table columns, number-format code).
+fn compare_intent_extras(b: &Spreadsheet, intent: &Value, tags: &[String], case: &Value, sink: &mut Sink) {
+    let sheets = intent["sheets"].as_array().cloned().unwrap_or_default();
+    for (si, s) in sheets.iter().enumerate() {
+        let ws = match b.get_sheet(&si) {
+            Some(w) => w,
+            None => continue,
+        };
+        let check_style = |st: &Style, want: &Value, what: &str, sink: &mut Sink| {
+            let p = style_p(st);
+            if let Some(f) = want.get("font") {
+                let pf = &p["font"];
+                for (k, v) in f.as_object().cloned().unwrap_or_default() {
+                    let ok = match k.as_str() {
+                        "bold" | "italic" | "strike" => pf[&k] == v,
+                        "name" | "underline" => pf[&k] == v,
+                        "size" => pf["size"].as_str().map(|s| s.split('#').next().unwrap_or("").parse::<f64>().map(|x| approx_eq(x, v.as_f64().unwrap_or(-1.0))).unwrap_or(false)).unwrap_or(false),
+                        "color_argb" => pf["color"]["argb"] == v,
+                        _ => true,
+                    };
+                    if !ok {
+                        push(sink, "reader-styles", &format!("font-{}", k), tags, case, format!("{}: file says font {} = {}, model shows {}", what, k, v, pf));
+                    }
+                }
+            }
+            if let Some(f) = want.get("fill") {
+                let pf = &p["fill"]["pattern"];
+                if pf["type"].as_str().map(|s| s.to_lowercase()) != f["type"].as_str().map(|s| s.to_lowercase()) {
+                    push(sink, "reader-styles", "fill-pattern-type", tags, case, format!("{}: file fill {}, model {}", what, f, p["fill"]));
+                } else if pf["fg"]["argb"] != f["fg_argb"] {
+                    push(sink, "reader-styles", "fill-fg-color", tags, case, format!("{}: file fill {}, model {}", what, f, p["fill"]));
+                }
+            }
+            if let Some(f) = want.get("borders") {
+                for (k, v) in f.as_object().cloned().unwrap_or_default() {
+                    let got = p["borders"][&k]["style"].as_str().unwrap_or("none");
+                    let got = if got.is_empty() { "none" } else { got };
+                    if json!(got) != v {
+                        push(sink, "reader-styles", "border-style", tags, case, format!("{}: file border {} = {}, model {}", what, k, v, p["borders"][&k]));
+                    }
+                }
+            }
+            if let Some(f) = want.get("numfmt") {
+                if &p["numfmt"] != f {
+                    push(sink, "reader-styles", "numfmt-code", tags, case, format!("{}: file number format {}, model {}", what, f, p["numfmt"]));
+                }
+            }
+            if let Some(f) = want.get("alignment") {
+                let a = &p["alignment"];
+                let ok = a["h"].as_str().map(|s| s.to_lowercase()) == f["h"].as_str().map(|s| s.to_string()) && a["v"].as_str().map(|s| s.to_lowercase()) == f["v"].as_str().map(|s| s.to_string()) && a["wrap"] == f["wrap"] && a["rotation"] == f["rotation"];
+                if !ok {
+                    push(sink, "reader-styles", "alignment", tags, case, format!("{}: file alignment {}, model {}", what, f, a));
+                }
+            }
+            if let Some(f) = want.get("protection") {
+                if p["protection"]["locked"] != f["locked"] || p["protection"]["hidden"] != f["hidden"] {
+                    push(sink, "reader-styles", "protection", tags, case, format!("{}: file protection {}, model {}", what, f, p["protection"]));
+                }
+            }
+        };
+        if let Some(cells) = s["cells"].as_object() {
+            for (k, c) in cells {
+                let row: u32 = k[1..8].parse().unwrap_or(0);
+                let col: u32 = k[9..].parse().unwrap_or(0);
+                if let Some(w) = c.get("style_want") {
+                    check_style(ws.get_style((col, row)), w, &format!("cell {}", k), sink);
+                }
+                if let Some(code) = c.get("numfmt") {
+                    let got = ws.get_style((col, row)).get_numbering_format().map(|n| n.get_format_code().to_string());
+                    if got.as_deref() != code.as_str() {
+                        push(sink, "reader-attributes", "numfmt-code", tags, case, format!("cell {}: file number format {}, model {:?}", k, code, got));
+                    }
+                }
+            }
+        }
+        if let Some(rs) = s.get("row_style_want").and_then(|x| x.as_object()) {
+            for (k, w) in rs {
+                let r: u32 = k.parse().unwrap_or(0);
+                match ws.get_row_dimension(&r) {
+                    Some(row) => check_style(row.get_style(), w, &format!("row {}", r), sink),
+                    None => push(sink, "reader-styles", "row-entry-missing", tags, case, format!("row {} has a style in the file but no row entry in the model", r)),
+                }
+            }
+        }
+        if let Some(cs) = s.get("col_style_want").and_then(|x| x.as_object()) {
+            for (k, w) in cs {
+                let c: u32 = k.parse().unwrap_or(0);
+                match ws.get_column_dimension_by_number(&c) {
+                    Some(col) => check_style(col.get_style(), w, &format!("column {}", c), sink),
+                    None => push(sink, "reader-styles", "column-entry-missing", tags, case, format!("column {} has a style in the file but no column entry in the model", c)),
+                }
+            }
+        }
+        if let Some(rs) = s.get("rows").and_then(|x| x.as_object()) {
+            for (k, w) in rs {
+                let r: u32 = k.parse().unwrap_or(0);
+                let want: f64 = w["height"].as_str().and_then(|x| x.parse().ok()).unwrap_or(0.0);
+                let got = ws.get_row_dimension(&r).map(|x| *x.get_height());
+                if got.map(|g| !approx_eq(g, want)).unwrap_or(true) {
+                    push(sink, "reader-dimensions", "row-height", tags, case, format!("row {}: file height {}, model {:?}", r, want, got));
+                }
+            }
+        }
+        if let Some(cs) = s.get("cols").and_then(|x| x.as_object()) {
+            for (k, w) in cs {
+                let c: u32 = k.parse().unwrap_or(0);
+                let want: f64 = w["width"].as_str().and_then(|x| x.parse().ok()).unwrap_or(0.0);
+                let got = ws.get_column_dimension_by_number(&c).map(|x| (*x.get_width(), *x.get_hidden()));
+                let wh = w["hidden"] == json!(true);
+                if got.map(|g| !approx_eq(g.0, want) || g.1 != wh).unwrap_or(true) {
+                    push(sink, "reader-dimensions", "column-width-or-hidden", tags, case, format!("column {}: file width {} hidden {}, model {:?}", c, want, wh, got));
+                }
+            }
+        }
+        if let Some(tc) = s.get("table_columns").and_then(|x| x.as_array()) {
+            let want: Vec<String> = tc.iter().map(|x| x.as_str().unwrap_or("").to_string()).collect();
+            let got: Vec<String> = ws.get_tables().first().map(|t| t.get_columns().iter().map(|c| c.get_name().to_string()).collect()).unwrap_or_default();
+            if got != want {
+                push(sink, "reader-attributes", "table-column-name", tags, case, format!("file table columns {:?}, model {:?}", want, got));
+            }
+        }
+        if let Some(links) = s["links"].as_object() {
+            for (k, l) in links {
+                if let Some(tt) = l.get("tooltip") {
+                    let row: u32 = k[1..8].parse().unwrap_or(0);
+                    let col: u32 = k[9..].parse().unwrap_or(0);
+                    let got = ws.get_cell((col, row)).and_then(|c| c.get_hyperlink()).map(|h| h.get_tooltip().to_string());
+                    if got.as_deref() != tt.as_str() {
+                        push(sink, "reader-attributes", "link-tooltip", tags, case, format!("{}: file tooltip {}, model {:?}", k, tt, got));
+                    }
+                }
+            }
+        }
+    }
+}
+
+struct Generated {
+    n: u64,
+}
+impl Space for Generated {
+    fn len(&self) -> u64 {
+        self.n
+    }
+    fn describe(&self, i: u64) -> Value {
+        let r = with_py(|py| py.call(json!({"op": "gen", "index": i}), &[]));
+        json!({"kind": "generated", "label": r["label"], "tags": r["tags"]})
+    }
+    fn tags(&self, i: u64) -> Vec<String> {
+        let r = with_py(|py| py.call(json!({"op": "gen", "index": i}), &[]));
+        r["tags"].as_array().map(|a| a.iter().filter_map(|x| x.as_str().map(|s| s.to_string())).collect()).unwrap_or_default()
+    }
+    fn run(&self, i: u64, sink: &mut Sink) {
+        let r = with_py(|py| py.call(json!({"op": "gen", "index": i}), &[]));
+        let bytes = base64::engine::general_purpose::STANDARD.decode(r["b64"].as_str().unwrap_or("")).unwrap_or_default();
+        let intent = r["intent"].clone();
+        let tags: Vec<String> = r["tags"].as_array().map(|a| a.iter().filter_map(|x| x.as_str().map(|s| s.to_string())).collect()).unwrap_or_default();
+        let case = json!({"kind": "generated", "label": r["label"]});
+        // the generated file must be valid and the two independent references must agree (else: machinery)
+        let (probs, pbook) = with_py(|py| py.validate_decode(&bytes, false));
+        if !probs.is_empty() {
+            eprintln!("MACHINERY: generator produced an invalid package for {}: {:?}", r["label"], probs);
+            std::process::exit(2);
+        }
+        let agree = compare_model_shapes(&intent, &pbook);
+        if let Some(msg) = agree {
+            eprintln!("MACHINERY: generator intent and Python decoder disagree on {}: {}", r["label"], msg);
+            std::process::exit(2);
+        }
+        sink.evaluations += 1;
+        match load_bytes(&bytes, true) {
+            Err(e) => push(sink, "reader-accepts-valid-file", &format!("load-failed:{}", panic_class(&e)), &tags, &case, e),
+            Ok(b) => {
+                sink.hashes.push(fnv(lib_dump(&b).to_string().as_bytes()));
+                compare_reader(&b, &intent, &tags, &case, sink);
+                compare_intent_extras(&b, &intent, &tags, &case, sink);
+                // lazy reading followed by materialisation must give the same cells (cheap cross-check here; C11 is the real check)
+            }
+        }
+    }
+}
+
+/// intent vs P decode on the fields the intent sets; None = agree
+fn compare_model_shapes(intent: &Value, p: &Value) -> Option<String> {
+    let (is, ps) = (intent["sheets"].as_array()?, p["sheets"].as_array()?);
+    if is.len() != ps.len() {
+        return Some("sheet count".into());
+    }
+    for (a, b) in is.iter().zip(ps.iter()) {
+        if a["name"] != b["name"] {
+            return Some(format!("sheet name {} vs {}", a["name"], b["name"]));
+        }
+        for (k, c) in a["cells"].as_object()? {
+            let d = &b["cells"][k];
+            if d.is_null() {
+                return Some(format!("{} missing in decoder", k));
+            }
+            if c["kind"] != d["kind"] || c["formula"] != d["formula"] {
+                return Some(format!("{}: {} vs {}", k, c, d));
+            }
+            if c["kind"] == json!("n") {
+                if c["bits"] != d["bits"] {
+                    return Some(format!("{} bits", k));
+                }
+            } else if c["kind"] != json!("") && c["value"] != d["value"] {
+                return Some(format!("{}: value {} vs {}", k, c["value"], d["value"]));
+            }
+        }
+        for (k, l) in a["links"].as_object()? {
+            let d = &b["links"][k];
+            if d["target"] != l["target"] || d["location"] != l["location"] {
+                return Some(format!("link {}: {} vs {}", k, l, d));
+            }
+        }
+    }
     None
 }
-fn replay(_tier: Tier, _case: &Value) -> Vec<Violation> {
-    vec![]
+
+struct Corpus {
+    files: Vec<String>,
 }
-fn run(_ctx: &Ctx) -> i32 {
-    eprintln!("MACHINERY: C03 is not built yet");
-    2
+impl Space for Corpus {
+    fn len(&self) -> u64 {
+        self.files.len() as u64
+    }
+    fn describe(&self, i: u64) -> Value {
+        json!({"kind": "corpus", "file": self.files[i as usize].rsplit('/').next()})
+    }
+    fn tags(&self, i: u64) -> Vec<String> {
+        vec![format!("corpus:{}", self.files[i as usize].rsplit('/').next().unwrap_or(""))]
+    }
+    fn run(&self, i: u64, sink: &mut Sink) {
+        let tags = self.tags(i);
+        let case = self.describe(i);
+        let data = match std::fs::read(&self.files[i as usize]) {
+            Ok(d) => d,
+            Err(_) => return,
+        };
+        let (probs, pbook) = with_py(|py| py.validate_decode(&data, false));
+        // "for every VALID xlsx file": a corpus file our validator rejects is outside the quantifier
+        if probs.iter().any(|p| p.0 == "xml-malformed" || p.0 == "zip-bad") {
+            sink.count("corpus_files_not_valid_for_the_independent_reader", 1);
+            return;
+        }
+        sink.evaluations += 1;
+        match load_bytes(&data, true) {
+            Err(e) => push(sink, "reader-accepts-valid-file", &format!("load-failed:{}", panic_class(&e)), &tags, &case, e),
+            Ok(b) => {
+                sink.hashes.push(fnv(lib_dump(&b).to_string().as_bytes()));
+                compare_reader(&b, &pbook, &tags, &case, sink);
+            }
+        }
+    }
+}
+
+pub fn space(tier: Tier, id: &str) -> Option<Box<dyn Space>> {
+    match id {
+        "generated" => Some(Box::new(Generated { n: gen_count().0 })),
+        "corpus" => {
+            let mut files = corpus_files();
+            if tier == Tier::Quick {
+                files.retain(|f| std::fs::metadata(f).map(|m| m.len() < 600_000).unwrap_or(false));
+            }
+            Some(Box::new(Corpus { files }))
+        }
+        _ => None,
+    }
+}
+
+fn replay(tier: Tier, case: &Value) -> Vec<Violation> {
+    replay_e1(space(tier, case["_space"].as_str().unwrap_or("")), case)
+}
+
+fn run(ctx: &Ctx) -> i32 {
+    let ids = ["generated", "corpus"];
+    let spaces = ids.iter().map(|id| (*id, space(ctx.tier, id).unwrap())).collect();
+    let (n, fams) = gen_count();
+    let _ = strip_ws;
+    run_e1(
+        ctx,
+        E1Spec {
+            spaces,
+            cfg: PoolCfg { chunk: 8, case_timeout: std::time::Duration::from_secs(120), ..Default::default() },
+            level: "exploration",
+            rule: "every file of the grammar-enumerating generator pyref/xlsx_gen.py (families: cell encodings x text payloads; shared-formula blocks = template x anchor x shape x si numbering with every child offset; entity-escaped attribute channels x special strings; optional attributes / column spans; cellXfs style resolution) and every corpus file. Three-way oracle for generated files: generator intent == independent Python decoder (disagreement = machinery error, exit 2) == library dump after read_reader; corpus: Python decoder == library dump. distinct_nontrivial = distinct library dumps".into(),
+            alphabets: json!({"generator_families": fams, "generated_files": n, "corpus_files": corpus_files().len()}),
+            bounds: json!({"shared_formula_block": "up to 3x3, anchors C3/D5/AA3, 14 templates, dense and sparse si", "corpus": if ctx.tier == Tier::Quick {"files < 600 kB"} else {"all files"}}),
+            exhaustive: true,
+            caps_hit: vec![],
+            assumptions: vec!["producer quirks outside the grammar (omitted r= attributes, start/end tag pairs for <sheet>, _xHHHH_ escapes) are outside the alphabet".into(), "corpus files that the independent reader finds malformed are outside the quantifier (counted)".into()],
+            min_distinct: 100,
+        },
+    )
 }
